@@ -2,6 +2,7 @@ import DG.Proto
 import DG.JsrVersion
 import DG.Decode
 import DG.BuildProto
+import DG.Prune
 /-! Line-protocol driver: one request per line on stdin, one answer per line on stdout. -/
 open DG DG.Sexp
 
@@ -106,6 +107,19 @@ def handle (st : DState) (req : Sexp) : DState × String :=
     | some w, some o, some rs, some is, some fuel =>
       match DG.Build.build w o rs is fuel with
       | some stf => (st, DG.Build.showSt stf)
+      | none => (st, "OUT-OF-FUEL")
+    | _, _, _, _, _ => (st, "bad-op")
+  | .list [.atom "prune", wx, ox, .list (.atom "roots" :: rs), .list (.atom "imports" :: is), fuel] =>
+    match DG.Build.world? wx, DG.Build.opts? ox, nats? rs, DG.Build.imports? is, nat? fuel with
+    | some w, some o, some rs, some is, some fuel =>
+      match DG.Build.build w o rs is fuel with
+      | some stf =>
+        let (slots, reds) :=
+          if o.kind.includeTypes then
+            let p := DG.Prune.pruneTypes rs stf.slots stf.redirects (DG.Prune.pruneFuel rs stf.slots stf.redirects)
+            (p.slots, p.redirects)
+          else (stf.slots, stf.redirects)
+        (st, DG.Build.showSt { stf with slots := slots, redirects := reds, log := [] })
       | none => (st, "OUT-OF-FUEL")
     | _, _, _, _, _ => (st, "bad-op")
   | .list [.atom "valid"] =>
